@@ -7,6 +7,7 @@ filtering rule; among the scalars bool / key / oneof honour filtering, float / i
 filtering and sorting, string searching; any, array, bytes, date, decimal, map, object: "do nothing".
 -/
 namespace J5V.Pipe
+open J5V.Compile
 
 inductive LKind where
   | enum | bool | key | oneof | float | integer | timestamp | string | other
@@ -26,10 +27,67 @@ def listEffect (k : LKind) (r : LRules) : LRules :=
   | .string => { filter := false, sort := false, search := r.search }
   | .other => { filter := false, sort := false, search := false }
 
-/-- the enum branch of the callback: every default filter has to name an option of the enum
-(`enumSchema.OptionByName(val)`), else the whole client API is refused -/
-def defaultFiltersOk (options defaults : List J5V.Compile.Str) : Bool :=
-  defaults.all (fun d => options.contains d)
+/-! ## enum default filters: the producer's check and the consumer's check
+
+`listRules.filtering.defaultFilters` of an enum field travels verbatim from the j5s source through
+the `(j5.list.v1.field).enum` annotation into `EnumField.ListRules`.
+
+* producer (`internal/j5s/j5convert`, since `fix:` b6c593a): `buildField` runs
+  `enumRef.mapValues(filtering.DefaultFilters)`; `enumTypeRef` / `visitEnumNode` name the values
+  `<prefix>UNSPECIFIED`, then every declared option with the prefix added when it is not there
+  (a first option spelled `UNSPECIFIED`, with or without prefix, is the zero value itself).
+* consumer (`lib/j5schema` `buildEnum` + `OptionByName`, `internal/j5client/list.go`): the prefix
+  is the first value's name minus the suffix `UNSPECIFIED`, option names are the value names with
+  that prefix trimmed, and a default filter is looked up after trimming the prefix from it. -/
+
+/-- `if !strings.HasPrefix(in, prefix) { in = prefix + in }` -/
+def addPrefix (pfx n : Str) : Str :=
+  if hasPrefix pfx n then n else pfx ++ n
+
+/-- `strings.TrimPrefix(n, prefix)` -/
+def trimPrefix (pfx n : Str) : Str :=
+  if hasPrefix pfx n then n.drop pfx.length else n
+
+def unspecified : Str := b!"UNSPECIFIED"
+
+/-- value names of the enum descriptor the compiler emits (`visitEnumNode`) = keys of
+`EnumRef.ValMap` (`enumTypeRef`), in number order -/
+def enumValueNames (pfx : Str) (opts : List Str) : List Str :=
+  let rest := match opts with
+    | o :: os => if trimPrefix pfx o = unspecified then os else opts
+    | [] => []
+  (pfx ++ unspecified) :: rest.map (addPrefix pfx)
+
+/-- `EnumRef.mapValues(defaults)` succeeds -/
+def compileDefaultsOk (pfx : Str) (valueNames defaults : List Str) : Bool :=
+  defaults.all (fun d => valueNames.contains (addPrefix pfx d))
+
+/-- `Package.buildEnum`: prefix and trimmed option names read back from the descriptor's value
+names; `none` = "enum does not have an unspecified value ending in UNSPECIFIED" (or no value) -/
+def readEnum (valueNames : List Str) : Option (Str × List Str) :=
+  match valueNames with
+  | [] => none
+  | v0 :: _ =>
+    if hasSuffix unspecified v0 then
+      let pfx := trimSuffix v0 unspecified
+      some (pfx, valueNames.map (trimPrefix pfx))
+    else none
+
+/-- the enum branch of `buildListRequest`'s callback: every default filter has to name an option
+of the enum (`enumSchema.OptionByName(val)` = trim the prefix, compare with the option names),
+else the whole client API is refused -/
+def defaultFiltersOk (pfx : Str) (options defaults : List Str) : Bool :=
+  defaults.all (fun d => options.contains (trimPrefix pfx d))
+
+/-- producer's check followed by the consumer's reading of the same enum and the same defaults:
+`none` = the compiler rejects the field; `some b` = accepted, `b` = the client accepts too -/
+def enumDefaultsChain (pfx : Str) (opts defaults : List Str) : Option Bool :=
+  let vs := enumValueNames pfx opts
+  if compileDefaultsOk pfx vs defaults then
+    match readEnum vs with
+    | some (p, os) => some (defaultFiltersOk p os defaults)
+    | none => some false
+  else none
 
 def LRules.toTag (r : LRules) : Nat :=
   (if r.filter then 1 else 0) + (if r.sort then 2 else 0) + (if r.search then 4 else 0)
@@ -37,7 +95,5 @@ def LRules.toTag (r : LRules) : Nat :=
 def tagFilter (t : Nat) : Bool := t % 2 == 1
 def tagSort (t : Nat) : Bool := t / 2 % 2 == 1
 def tagSearch (t : Nat) : Bool := t / 4 % 2 == 1
-/-- bit 8: the property is a filterable enum whose default filters fail `defaultFiltersOk` -/
-def tagBadDefault (t : Nat) : Bool := t / 8 % 2 == 1
 
 end J5V.Pipe
